@@ -203,19 +203,19 @@ class World:
         self._orig = {}
 
     # -- bookkeeping --------------------------------------------------------------------------
-    def op(self, kind, **fields):
-        self.ops[kind] = self.ops.get(kind, 0) + 1
-        self.trace.append('%d op %s %s' % (self.log.seq + 1, kind, json.dumps(_j(fields), sort_keys=True)))
-        return self.log.ev('op', kind=kind, **fields)
+    def op(self, _op, **fields):
+        self.ops[_op] = self.ops.get(_op, 0) + 1
+        self.trace.append('%d op %s %s' % (self.log.seq + 1, _op, json.dumps(_j(fields), sort_keys=True)))
+        return self.log.ev('op', _k=_op, **fields)
 
-    def outcome(self, kind, **fields):
-        self.trace.append('%d   -> %s %s' % (self.log.seq + 1, kind, json.dumps(_j(fields), sort_keys=True)))
-        return self.log.ev('out', kind=kind, **fields)
+    def outcome(self, _out, **fields):
+        self.trace.append('%d   -> %s %s' % (self.log.seq + 1, _out, json.dumps(_j(fields), sort_keys=True)))
+        return self.log.ev('out', _k=_out, **fields)
 
-    def fault(self, kind, **fields):
-        self.faults[kind] = self.faults.get(kind, 0) + 1
-        self.trace.append('%d   !! fault %s %s' % (self.log.seq + 1, kind, json.dumps(_j(fields), sort_keys=True)))
-        return self.log.ev('fault', kind=kind, **fields)
+    def fault(self, _fault, **fields):
+        self.faults[_fault] = self.faults.get(_fault, 0) + 1
+        self.trace.append('%d   !! fault %s %s' % (self.log.seq + 1, _fault, json.dumps(_j(fields), sort_keys=True)))
+        return self.log.ev('fault', _k=_fault, **fields)
 
     def probe(self, name, n=1):
         self.probes[name] = self.probes.get(name, 0) + n
@@ -292,6 +292,9 @@ class World:
         orig_ce = sqlalchemy.create_engine
 
         def create_engine(*a, **kw):
+            if a and str(a[0]).startswith('sqlite') and 'connect_args' not in kw:
+                # a lock held by another handle of this single-threaded simulation never goes away by waiting
+                kw['connect_args'] = {'timeout': 0.02}
             e = orig_ce(*a, **kw)
             world.engines.append(e)
             return e
